@@ -92,6 +92,13 @@ func (e *c03Echo) VarlinkDispatch(ctx context.Context, c varlink.Call, method st
 		e.got = append(e.got, "ERR:"+err.Error())
 	} else {
 		e.got = append(e.got, string(raw))
+		// reading is not consuming: a second look at the same call (a generic front end decodes, then the typed
+		// handler does) yields the same parameters
+		var again json.RawMessage
+		c2 := c
+		if err := c2.GetParameters(&again); err != nil || string(again) != string(raw) {
+			e.got = append(e.got, fmt.Sprintf("SECOND-READ-DIFFERS: %s (err %v)", string(again), err))
+		}
 	}
 	switch method {
 	case "Echo":
@@ -156,6 +163,25 @@ func c03Body(d c03Desc, tier string) func() {
 				echo.got = echo.got[:0]
 				var out json.RawMessage
 				var err error
+				if i%16 == 10 || i == d.To-d.From-1 {
+					// a oneway call with nothing behind it: the handler reads it although the client stays silent
+					// afterwards (and, for the last document of the batch, closes the connection at once)
+					_, err = conn.Send(live, "t.r.Echo", json.RawMessage(doc), varlink.Oneway)
+					if err != nil {
+						fail("document %s: oneway Send failed: %v", doc, err)
+						break
+					}
+					if i == d.To-d.From-1 {
+						conn.Close()
+					}
+					vsched.Yield("wait-oneway-handled", "H", func() bool { return len(echo.got) >= 1 })
+					st.cases++
+					if len(echo.got) != 1 || !rawJSONEqual([]byte(echo.got[0]), []byte(doc)) {
+						fail("document %s sent oneway: the handler read %v", doc, echo.got)
+						break
+					}
+					continue
+				}
 				if i%2 == 0 {
 					err = conn.Call(live, "t.r.Echo", json.RawMessage(doc), &out)
 				} else {
